@@ -672,8 +672,14 @@ func Mutate(r *rand.Rand, root *V, name string) (*V, bool) {
 			removeAll(o, req)
 			return c, true
 		case "member-wrong-kind":
+			orig := o.Get(req)
 			if !setLast(o, req, wrongKind(r)) {
 				continue
+			}
+			if orig != nil && r.Intn(3) == 0 {
+				// the member's own value, but spelled as a JSON string
+				setLast(o, req, str(Render(r, orig, false, false)))
+				return c, true
 			}
 			if req == "geometry" {
 				setLast(o, req, []*V{str("x"), num("3"), &V{Kind: 'z'}, arr(), &V{Kind: 'f'}}[r.Intn(5)])
